@@ -23,7 +23,7 @@ func init() {
 	register(&Rule{ID: "C07.nilrecv", Floor: 40,
 		Text: "every avfs.File method of the wrapper file types (RoFile, FailFile, BasePathFile) dereferences its receiver only after `f == nil -> return` (Name excepted): a nil handle yields an error, not a panic",
 		Run:  c07NilRecv})
-	register(&Rule{ID: "C07.args", Floor: 3,
+	register(&Rule{ID: "C07.args", Floor: 2, Also: []string{"C12"}, AlsoOnly: map[string][]string{"C12": {"failfs."}}, AlsoFloor: map[string]int{"C12": 0},
 		Text: "in exported functions and methods, a string parameter is indexed with a constant only under a dominating length test, and a value obtained from a parameter is type-asserted only in comma-ok form",
 		Run:  c07Args})
 }
